@@ -242,8 +242,15 @@ func muxScenario(tr *Tracer, rng *rand.Rand, nchan, msgs, replies, procs int, un
 	close(start)
 	wg.Wait()
 	// packets for channels that do not exist: a connection error each, nothing else changes
+	// (two in a row for the same id, behind a packet for a channel that does exist: the second one is as
+	// unknown as the first)
+	legit := 0
 	for i := 0; i < unknown; i++ {
-		c := 500 + i
+		c := 500 + i/2
+		if i%2 == 0 {
+			mc.Feed(mkPacket(4, 1, 0, 0, append(encRetStat(7777).Bytes, encDone(tokDone, 0, 0, 0).Bytes...)))
+			legit += 2 // the return status and the final DONE
+		}
 		tr.Emit(Ev{"ev": "PeerSendUnknown", "chan": c})
 		mc.Feed(strayPacket(i, c))
 	}
@@ -257,10 +264,16 @@ func muxScenario(tr *Tracer, rng *rand.Rand, nchan, msgs, replies, procs int, un
 		unknown++
 	}
 	errs := 0
-	for i := 0; i < unknown+2; i++ {
+	for i := 0; i < unknown+2+legit; i++ {
 		ctx, cancel := context.WithTimeout(context.Background(), 300*time.Millisecond)
 		pkg, err := ch0.NextPackage(ctx, true)
 		cancel()
+		if rs, ok := pkg.(*tds.ReturnStatusPackage); ok && err == nil && muxRetVal(rs) == 7777 {
+			continue // channel 0's own packet
+		}
+		if _, ok := pkg.(*tds.DonePackage); ok && err == nil && legit > 0 {
+			continue // ... and the final DONE behind it
+		}
 		if err != nil && strings.Contains(err.Error(), "invalid channel") {
 			errs++
 		} else if err == nil {
